@@ -25,6 +25,20 @@ Import ListNotations.
 Inductive cop := OpM | OpI | OpD | OpN | OpS | OpH | OpP | OpEQ | OpX.
 Definition cigar := list (cop * nat).
 
+(* The three rules found defective by the correspondence check, each switchable to its repair:
+     r_skip_consumed   cigar_prefix_length at a reference skip (N): false = the code (reports the *requested*
+                       number of reference bases), true = repaired (reports the bases actually consumed,
+                       like at the end of the read)
+     r_ins_left_flank  _detect_alleles, insertion variant (empty normalised REF) located exactly at the first
+                       base of an aligned block (read start / after N): false = the code (queues it, the empty
+                       REF allele resolves at once), true = repaired (skips it: the junction is not covered)
+     r_pair_keep_mate  create_read_from_group: false = the code (drops every alignment whose strand differs
+                       from the last primary one, i.e. one mate of every FR pair), true = repaired (the strand
+                       filter applies to supplementary alignments only) *)
+Record rules := mkRules { r_skip_consumed : bool; r_ins_left_flank : bool; r_pair_keep_mate : bool }.
+Definition current_rules := mkRules false false false.
+Definition repaired_rules := mkRules true true true.
+
 Record variant := mkVar { vpos : nat; vref : list Z; valt : list Z }.
 
 Definition is_match (o : cop) : bool := match o with OpM | OpEQ | OpX => true | _ => false end.
@@ -95,22 +109,22 @@ Definition split_right (cig : cigar) (i consumed : nat) : cigar :=
 
 (* returns Some (reference_bases, query_bases); None = AssertionError ("unknown CIGAR operator" for P,
    or the final `assert ref_pos < reference_bases`) *)
-Fixpoint prefix_len (cig : cigar) (want rp qp : nat) : option (nat * nat) :=
+Fixpoint prefix_len (R : rules) (cig : cigar) (want rp qp : nat) : option (nat * nat) :=
   match cig with
   | [] => if rp <? want then Some (rp, qp) else None
   | (op, len) :: cig' =>
       match op with
       | OpM | OpEQ | OpX =>
           if want <=? rp + len then Some (want, qp + len + want - (rp + len))
-          else prefix_len cig' want (rp + len) (qp + len)
-      | OpD => if want <=? rp + len then Some (want, qp) else prefix_len cig' want (rp + len) qp
-      | OpI => prefix_len cig' want rp (qp + len)
-      | OpS | OpH => prefix_len cig' want rp qp
-      | OpN => Some (want, qp)
+          else prefix_len R cig' want (rp + len) (qp + len)
+      | OpD => if want <=? rp + len then Some (want, qp) else prefix_len R cig' want (rp + len) qp
+      | OpI => prefix_len R cig' want rp (qp + len)
+      | OpS | OpH => prefix_len R cig' want rp qp
+      | OpN => Some (if r_skip_consumed R then rp else want, qp)
       | OpP => None
       end
   end.
-Definition cigar_prefix_length (cig : cigar) (want : nat) : option (nat * nat) := prefix_len cig want 0 0.
+Definition cigar_prefix_length (R : rules) (cig : cigar) (want : nat) : option (nat * nat) := prefix_len R cig want 0 0.
 
 (* ------------------------------------------------------------------------------------------------
    realign, plain edit-distance mode.  Outer option: None = AssertionError.
@@ -122,10 +136,10 @@ Definition is_symbolic (v : variant) : bool :=
   match valt v with c :: _ => Z.eqb c LT | [] => false end.
 
 (* the (query window, padded REF, padded ALT) triple built by realign *)
-Definition windows (reference : list Z) (overhang : nat) (v : variant) (cig : cigar) (query : list Z)
+Definition windows (R : rules) (reference : list Z) (overhang : nat) (v : variant) (cig : cigar) (query : list Z)
            (i consumed qpos : nat) : option (list Z * list Z * list Z) :=
-  match cigar_prefix_length (split_left cig i consumed) overhang,
-        cigar_prefix_length (split_right cig i consumed) (length (vref v) + overhang) with
+  match cigar_prefix_length R (split_left cig i consumed) overhang,
+        cigar_prefix_length R (split_right cig i consumed) (length (vref v) + overhang) with
   | Some (lr, lq), Some (rr, rq) =>
       (* assert variant.position - left_ref_bases >= 0; assert variant.position + right_ref_bases <= len(reference) *)
       if (lr <=? vpos v) && (vpos v + rr <=? length reference) then
@@ -142,10 +156,10 @@ Definition windows (reference : list Z) (overhang : nat) (v : variant) (cig : ci
 Definition decide (d0 d1 : nat) : option nat :=
   if d0 <? d1 then Some 0 else if d1 <? d0 then Some 1 else None.
 
-Definition realign (reference : list Z) (overhang : nat) (v : variant) (cig : cigar) (query : list Z)
+Definition realign (R : rules) (reference : list Z) (overhang : nat) (v : variant) (cig : cigar) (query : list Z)
            (i consumed qpos : nat) : option (option nat) :=
   if is_symbolic v then Some None else
-  match windows reference overhang v cig query i consumed qpos with
+  match windows R reference overhang v cig query i consumed qpos with
   | Some (q, pref, palt) => Some (decide (ed q pref) (ed q palt))
   | None => None
   end.
@@ -154,7 +168,7 @@ Definition realign (reference : list Z) (overhang : nat) (v : variant) (cig : ci
 Definition det := (nat * nat * nat)%type.
 
 (* detect_alleles_by_alignment: None = an AssertionError escaped from realign *)
-Fixpoint realign_all (reference : list Z) (overhang : nat) (variants : list variant) (cig : cigar)
+Fixpoint realign_all (R : rules) (reference : list Z) (overhang : nat) (variants : list variant) (cig : cigar)
          (query : list Z) (ys : list cyield) : option (list det) :=
   match ys with
   | [] => Some []
@@ -162,10 +176,10 @@ Fixpoint realign_all (reference : list Z) (overhang : nat) (variants : list vari
       match nth_error variants j with
       | None => None                               (* unreachable: j comes from the variant list *)
       | Some v =>
-          match realign reference overhang v cig query i consumed qpos with
+          match realign R reference overhang v cig query i consumed qpos with
           | None => None
           | Some r =>
-              match realign_all reference overhang variants cig query ys' with
+              match realign_all R reference overhang variants cig query ys' with
               | None => None
               | Some rest =>
                   Some (match r with Some a => (j, a, 30) :: rest | None => rest end)
@@ -174,11 +188,11 @@ Fixpoint realign_all (reference : list Z) (overhang : nat) (variants : list vari
       end
   end.
 
-Definition detect_by_alignment (reference : list Z) (overhang : nat) (variants : list variant)
+Definition detect_by_alignment (R : rules) (reference : list Z) (overhang : nat) (variants : list variant)
            (start : nat) (cig : cigar) (query : list Z) : option (list det) :=
   match cig with
   | [] => Some []                                  (* if not cigartuples: return *)
-  | _ => realign_all reference overhang variants cig query
+  | _ => realign_all R reference overhang variants cig query
            (iterate_cigar (index_from 0 variants) start cig)
   end.
 
@@ -362,7 +376,7 @@ Fixpoint final_yield (q : list vprog) : list det :=
   end.
 
 (* queueing loop of one M/I/D operation: (newly queued, remaining progress list) *)
-Fixpoint enqueue (op : cop) (variants : list variant) (vp : list vprog) (rp qp ref_end : nat)
+Fixpoint enqueue (skip_at_start : bool) (op : cop) (variants : list variant) (vp : list vprog) (rp qp ref_end : nat)
   : list vprog * list vprog :=
   match vp with
   | [] => ([], [])
@@ -375,12 +389,14 @@ Fixpoint enqueue (op : cop) (variants : list variant) (vp : list vprog) (rp qp r
             let ref_len := length (vref v) in
             match op with
             | OpI => if 0 <? ref_len then ([], vp)
-                     else let (a, b) := enqueue op variants r rp qp ref_end in
+                     else let (a, b) := enqueue skip_at_start op variants r rp qp ref_end in
                           (reset e (qp + vpos v - rp) :: a, b)
-            | OpD => if ref_len =? 0 then enqueue op variants r rp qp ref_end
-                     else let (a, b) := enqueue op variants r rp qp ref_end in (reset e qp :: a, b)
-            | _ => let (a, b) := enqueue op variants r rp qp ref_end in
-                   (reset e (qp + vpos v - rp) :: a, b)
+            | OpD => if ref_len =? 0 then enqueue skip_at_start op variants r rp qp ref_end
+                     else let (a, b) := enqueue skip_at_start op variants r rp qp ref_end in (reset e qp :: a, b)
+            | _ => if skip_at_start && (ref_len =? 0) && (vpos v =? rp)
+                   then enqueue skip_at_start op variants r rp qp ref_end
+                   else let (a, b) := enqueue skip_at_start op variants r rp qp ref_end in
+                        (reset e (qp + vpos v - rp) :: a, b)
             end
       end
   end.
@@ -396,33 +412,34 @@ Fixpoint skip_progress (variants : list variant) (vp : list vprog) (rp : nat) : 
       end
   end.
 
-Fixpoint detect_loop (cig : cigar) (query quals : list Z) (variants : list variant) (vp queue : list vprog)
-         (rp qp : nat) : list det :=
+(* flank: some M/I/D operation has been processed since the read start / the last reference skip *)
+Fixpoint detect_loop (R : rules) (cig : cigar) (query quals : list Z) (variants : list variant) (vp queue : list vprog)
+         (flank : bool) (rp qp : nat) : list det :=
   match cig with
   | [] => final_yield queue
   | (op, len) :: cig' =>
       let vp := skip_progress variants vp rp in
       match op with
-      | OpN => detect_loop cig' query quals variants vp queue (rp + len) qp
-      | OpS => detect_loop cig' query quals variants vp queue rp (qp + len)
-      | OpH | OpP => detect_loop cig' query quals variants vp queue rp qp
+      | OpN => detect_loop R cig' query quals variants vp queue false (rp + len) qp
+      | OpS => detect_loop R cig' query quals variants vp queue flank rp (qp + len)
+      | OpH | OpP => detect_loop R cig' query quals variants vp queue flank rp qp
       | _ =>
-          let (newq, vp') := enqueue op variants vp rp qp (rp + len) in
+          let (newq, vp') := enqueue (r_ins_left_flank R && negb flank) op variants vp rp qp (rp + len) in
           let queue1 := map (handle op query quals variants qp len) (queue ++ newq) in
           let rp' := match op with OpI => rp | _ => rp + len end in
           let qp' := match op with OpD => qp | _ => qp + len end in
           let (ys, queue2) := drain queue1 in
-          ys ++ detect_loop cig' query quals variants vp' queue2 rp' qp'
+          ys ++ detect_loop R cig' query quals variants vp' queue2 true rp' qp'
       end
   end.
 
 (* _detect_alleles(normalized_variants, var_progress, first, bam_read); the caller's skip
    (`valid_positions[i] < reference_start`) is the same skip again for position-sorted input *)
-Definition detect_noref (variants : list variant) (start : nat) (cig : cigar) (query quals : list Z) : list det :=
+Definition detect_noref (R : rules) (variants : list variant) (start : nat) (cig : cigar) (query quals : list Z) : list det :=
   let nv := map normalized variants in
   let valid := non_overlapping (index_from 0 nv) [] None in
   let vp := map (fun j => build_var_progress (nth j nv (mkVar 0 [] [])) j) valid in
-  detect_loop cig query quals nv (skip_progress nv vp start) [] start 0.
+  detect_loop R cig query quals nv (skip_progress nv vp start) [] false start 0.
 
 (* ------------------------------------------------------------------------------------------------
    alignments, filtering, grouping (variants.py: read, _usable_alignments, _alignments_to_reads,
@@ -454,22 +471,22 @@ Definition to_rvars (variants : list variant) (ds : list det) : list rvar :=
   map (fun d : det => let '(j, a, q) := d in (vpos (nth j variants (mkVar 0 [] [])), a, q)) ds.
 
 (* one alignment; reference = None selects the CIGAR-based path *)
-Definition detect_one (reference : option (list Z)) (overhang : nat) (variants : list variant) (a : alignment)
+Definition detect_one (R : rules) (reference : option (list Z)) (overhang : nat) (variants : list variant) (a : alignment)
   : option (list rvar) :=
   match reference with
-  | Some r => match detect_by_alignment r overhang variants (a_start a) (a_cigar a) (a_query a) with
+  | Some r => match detect_by_alignment R r overhang variants (a_start a) (a_cigar a) (a_query a) with
               | Some ds => Some (to_rvars variants ds)
               | None => None
               end
-  | None => Some (to_rvars variants (detect_noref variants (a_start a) (a_cigar a) (a_query a) (a_quals a)))
+  | None => Some (to_rvars variants (detect_noref R variants (a_start a) (a_cigar a) (a_query a) (a_quals a)))
   end.
 
-Fixpoint alignments_to_reads (reference : option (list Z)) (overhang : nat) (variants : list variant)
+Fixpoint alignments_to_reads (R : rules) (reference : option (list Z)) (overhang : nat) (variants : list variant)
          (alns : list alignment) : option (list aligned_read) :=
   match alns with
   | [] => Some []
   | a :: r =>
-      match detect_one reference overhang variants a, alignments_to_reads reference overhang variants r with
+      match detect_one R reference overhang variants a, alignments_to_reads R reference overhang variants r with
       | Some vs, Some rest =>
           Some (match vs with
                 | [] => rest                        (* `if read:` *)
@@ -485,8 +502,8 @@ Definition ar_distance (p o : aligned_read) : Z :=
   Z.max (Z.max (Z.of_nat (ar_end o) - Z.of_nat (ar_start p)) (Z.of_nat (ar_start o) - Z.of_nat (ar_end p))) 0.
 
 (* the rule of create_read_from_group deciding which members of a group contribute *)
-Definition group_member_used (threshold : Z) (primary r : aligned_read) : bool :=
-  Bool.eqb (ar_reverse r) (ar_reverse primary) && Z.leb (ar_distance primary r) threshold.
+Definition group_member_used (R : rules) (threshold : Z) (primary r : aligned_read) : bool :=
+  (Bool.eqb (ar_reverse r) (ar_reverse primary) || (r_pair_keep_mate R && negb (ar_supp r))) && Z.leb (ar_distance primary r) threshold.
 
 Fixpoint last_primary (g : list aligned_read) (acc : option aligned_read) : option aligned_read :=
   match g with [] => acc | r :: g' => last_primary g' (if ar_supp r then acc else Some r) end.
@@ -513,12 +530,12 @@ Fixpoint insert_sorted (x : rvar) (l : list rvar) : list rvar :=
 Definition sort_rvars (l : list rvar) : list rvar := fold_left (fun acc x => insert_sorted x acc) l [].
 
 (* create_read_from_group: None = the group yields no read *)
-Definition read_from_group (threshold : Z) (g : list aligned_read) : option (nat * list rvar) :=
+Definition read_from_group (R : rules) (threshold : Z) (g : list aligned_read) : option (nat * list rvar) :=
   match last_primary g None with
   | None => None
   | Some primary =>
       if 2 <? length (filter (fun r => negb (ar_supp r)) g) then None else
-      let used := filter (group_member_used threshold primary) g in
+      let used := filter (group_member_used R threshold primary) g in
       let '(seen, skip) := collect (flat_map ar_vars used) [] [] in
       Some (ar_name primary, sort_rvars (filter (fun v : rvar => negb (existsb (Nat.eqb (fst (fst v))) skip)) seen))
   end.
@@ -536,13 +553,136 @@ Fixpoint keep_some {A} (l : list (option A)) : list A :=
   match l with [] => [] | Some x :: r => x :: keep_some r | None :: r => keep_some r end.
 
 (* ReadSetReader.read: per resulting read (name, [(position, allele, quality)]); None = AssertionError *)
-Definition read_set (reference : option (list Z)) (overhang mapq_threshold : nat) (use_supp duplicates : bool)
+Definition read_set (R : rules) (reference : option (list Z)) (overhang mapq_threshold : nat) (use_supp duplicates : bool)
            (threshold : Z) (variants : list variant) (alns : list alignment) : option (list (nat * list rvar)) :=
-  match alignments_to_reads reference overhang variants
+  match alignments_to_reads R reference overhang variants
           (filter (usable mapq_threshold use_supp duplicates) alns) with
   | None => None
-  | Some rs => Some (keep_some (map (read_from_group threshold) (group_reads rs)))
+  | Some rs => Some (keep_some (map (read_from_group R threshold) (group_reads rs)))
   end.
 
-Definition read_set_default (reference : option (list Z)) (variants : list variant) (alns : list alignment) :=
-  read_set reference 10 20 false false 100000%Z variants alns.
+Definition read_set_default (R : rules) (reference : option (list Z)) (variants : list variant) (alns : list alignment) :=
+  read_set R reference 10 20 false false 100000%Z variants alns.
+
+(* ------------------------------------------------------------------------------------------------
+   specification side, evaluated on the implementation's own output *)
+
+(* maximal N-free aligned reference intervals [a, b) of an alignment *)
+Fixpoint blocks (c : cigar) (cur_start rp : nat) : list (nat * nat) :=
+  match c with
+  | [] => [(cur_start, rp)]
+  | (op, len) :: c' =>
+      match op with
+      | OpM | OpEQ | OpX | OpD => blocks c' cur_start (rp + len)
+      | OpN => (cur_start, rp) :: blocks c' (rp + len) (rp + len)
+      | _ => blocks c' cur_start rp
+      end
+  end.
+
+(* the variant's reference footprint [p, p + max 1 |ref|) meets an aligned interval *)
+Definition overlaps (v : variant) (a : alignment) : bool :=
+  existsb (fun b : nat * nat => (fst b <? vpos v + Nat.max 1 (length (vref v))) && (vpos v <? snd b))
+          (blocks (a_cigar a) (a_start a) (a_start a)).
+
+Definition rvar_eqb (x y : rvar) : bool :=
+  (fst (fst x) =? fst (fst y)) && (snd (fst x) =? snd (fst y)) && (snd x =? snd y).
+Fixpoint list_eqb {A} (eqb : A -> A -> bool) (a b : list A) : bool :=
+  match a, b with
+  | [], [] => true
+  | x :: a', y :: b' => eqb x y && list_eqb eqb a' b'
+  | _, _ => false
+  end.
+
+Fixpoint assoc {A} (k : nat) (l : list (nat * A)) : option A :=
+  match l with [] => None | (k', x) :: r => if k' =? k then Some x else assoc k r end.
+
+(* truth: per read name the (position, carried allele) of every variant some usable alignment of that
+   name fully covers;  must: per read name the positions that have to be reported (reference mode:
+   fully covered and no other carried difference within the re-alignment window) *)
+Definition truth_t := list (nat * list (nat * nat)).
+Definition must_t := list (nat * list nat).
+
+(* never the other allele *)
+Definition no_wrong_allele (truth : truth_t) (out : list (nat * list rvar)) : bool :=
+  forallb (fun r : nat * list rvar =>
+    match assoc (fst r) truth with
+    | None => true
+    | Some t => forallb (fun x : rvar => match assoc (fst (fst x)) t with
+                                         | Some al => snd (fst x) =? al
+                                         | None => true end) (snd r)
+    end) out.
+
+(* no allele for a variant that no usable alignment of that read overlaps *)
+Definition only_overlapped (mapq_threshold : nat) (use_supp duplicates : bool) (variants : list variant)
+           (alns : list alignment) (out : list (nat * list rvar)) : bool :=
+  forallb (fun r : nat * list rvar =>
+    forallb (fun x : rvar =>
+      existsb (fun v => (vpos v =? fst (fst x)) &&
+                 existsb (fun a => (a_name a =? fst r) && usable mapq_threshold use_supp duplicates a && overlaps v a) alns)
+              variants) (snd r)) out.
+
+(* every allele that must be found is reported (for reads that are reported at all or not) *)
+Definition none_missing (must : must_t) (out : list (nat * list rvar)) : bool :=
+  forallb (fun m : nat * list nat =>
+    forallb (fun p => match assoc (fst m) out with
+                      | Some vs => existsb (fun x : rvar => fst (fst x) =? p) vs
+                      | None => false end) (snd m)) must.
+
+Definition out_eqb (a b : list (nat * list rvar)) : bool :=
+  (length a =? length b) &&
+  forallb (fun r : nat * list rvar => match assoc (fst r) b with
+                                      | Some vs => list_eqb rvar_eqb (snd r) vs
+                                      | None => false end) a.
+
+(* a block may also merely touch the end of the footprint (used to classify the insertion-at-block-start defect) *)
+Definition overlaps_or_touches (v : variant) (a : alignment) : bool :=
+  existsb (fun b : nat * nat => (fst b <=? vpos v + Nat.max 1 (length (vref v))) && (vpos v <? snd b))
+          (blocks (a_cigar a) (a_start a) (a_start a)).
+Definition only_overlapped_or_touched (mapq_threshold : nat) (use_supp duplicates : bool) (variants : list variant)
+           (alns : list alignment) (out : list (nat * list rvar)) : bool :=
+  forallb (fun r : nat * list rvar =>
+    forallb (fun x : rvar =>
+      existsb (fun v => (vpos v =? fst (fst x)) &&
+                 existsb (fun a => (a_name a =? fst r) && usable mapq_threshold use_supp duplicates a && overlaps_or_touches v a) alns)
+              variants) (snd r)) out.
+
+(* One correspondence case.  truth / must: variants whose re-alignment window is free of other differences
+   (reference mode) resp. all fully covered variants (reference-free mode); truth_skip / must_skip: the window
+   is clean except that it reaches a reference skip; must_pair: like must, but also for the mate on the other strand *)
+Definition case_t := (option (list Z) * list variant * list alignment
+                      * (truth_t * truth_t) * (must_t * must_t * must_t)
+                      * option (list (nat * list rvar)))%type.
+
+Definition c_out (c : case_t) := snd c.
+Definition with_out (c : case_t) (f : list (nat * list rvar) -> bool) : bool :=
+  match c_out c with Some o => f o | None => true end.
+
+Definition l1_no_wrong (c : case_t) : bool :=
+  let '(_, _, _, (truth, _), _, _) := c in with_out c (no_wrong_allele truth).
+Definition l1_no_wrong_skip (c : case_t) : bool :=
+  let '(_, _, _, (_, truth_skip), _, _) := c in with_out c (no_wrong_allele truth_skip).
+Definition l1_overlap (c : case_t) : bool :=
+  let '(_, variants, alns, _, _, _) := c in with_out c (only_overlapped 20 false false variants alns).
+Definition l1_overlap_touch (c : case_t) : bool :=
+  let '(_, variants, alns, _, _, _) := c in with_out c (only_overlapped_or_touched 20 false false variants alns).
+Definition l1_missing (c : case_t) : bool :=
+  let '(_, _, _, _, (must, _, _), _) := c in with_out c (none_missing must).
+Definition l1_missing_skip (c : case_t) : bool :=
+  let '(_, _, _, _, (_, must_skip, _), _) := c in with_out c (none_missing must_skip).
+Definition l1_missing_pair (c : case_t) : bool :=
+  let '(_, _, _, _, (_, _, must_pair), _) := c in with_out c (none_missing must_pair).
+Definition l1_no_crash (c : case_t) : bool :=
+  match c_out c with Some _ => true | None => false end.
+Definition l2_model (c : case_t) : bool :=
+  let '(reference, variants, alns, _, _, out) := c in
+  match out, read_set_default current_rules reference variants alns with
+  | Some o, Some m => out_eqb o m
+  | None, None => true
+  | _, _ => false
+  end.
+(* the same input under the repaired rules satisfies every L1 clause (evaluated on the model's output) *)
+Definition repaired_ok (c : case_t) : bool :=
+  let '(reference, variants, alns, tr, mu, _) := c in
+  let c' : case_t := (reference, variants, alns, tr, mu, read_set_default repaired_rules reference variants alns) in
+  l1_no_crash c' && l1_no_wrong c' && l1_no_wrong_skip c' && l1_overlap c' && l1_missing c' && l1_missing_skip c'
+  && l1_missing_pair c'.
